@@ -413,6 +413,17 @@ def _sa_text(out) -> str:
 # ------------------------------------------------------------------ unknown fields on SQLAlchemy
 NAMES: List[str] = []
 MAPPED: Dict[str, set] = {}
+CORE_FROMS: List[tuple] = []     # further FROM objects for the Core visitor: column KEYS differ from column NAMES there
+
+
+def _core_froms() -> List[tuple]:
+    import sqlalchemy as sa
+    from ..models import sa as samodels
+    p, c = samodels.Parent.__table__, samodels.Child.__table__
+    keyed = sa.Table("vt_keyed", sa.MetaData(), sa.Column("id", sa.Integer, key="pk", primary_key=True),
+                     sa.Column("name", sa.String, key="label"), sa.Column("n", sa.Integer, key="count"))
+    return [("core-join", p.join(c, c.c.parent_id == p.c.id)), ("core-keyed", keyed),
+            ("core-subquery", sa.select(p).subquery()), ("core-alias", p.alias("pp"))]
 
 
 def check_unknown(which: int, ni: int, shape: int) -> bool:
@@ -424,8 +435,13 @@ def check_unknown(which: int, ni: int, shape: int) -> bool:
             ast.Call(I("tolower"), [I(name)]),
             ast.BinOp(ast.Add(), I(name), ast.Integer("1")),
             ast.Compare(ast.In(), I(name), ast.List([ast.Integer("1")]))][shape]
-    vis = AstToSqlAlchemyOrmVisitor(samodels.Parent) if which == 0 else AstToSqlAlchemyCoreVisitor(samodels.Parent.__table__)
-    mapped = MAPPED["orm" if which == 0 else "core"]
+    if which == 0:
+        vis = AstToSqlAlchemyOrmVisitor(samodels.Parent)
+    elif which == 1:
+        vis = AstToSqlAlchemyCoreVisitor(samodels.Parent.__table__)
+    else:
+        vis = AstToSqlAlchemyCoreVisitor(CORE_FROMS[which - 2][1])
+    mapped = MAPPED["orm" if which == 0 else "core" if which == 1 else CORE_FROMS[which - 2][0]]
     if name in mapped:
         return True            # a mapped name: whether the expression is well-typed is not this clause's subject
     try:
@@ -459,7 +475,11 @@ def prepare(tier: str, seed: int) -> None:
     insp = sa.inspect(samodels.Parent)
     MAPPED["orm"] = set(insp.columns.keys()) | set(insp.relationships.keys())
     MAPPED["core"] = set(samodels.Parent.__table__.c.keys())
-    pool = set(dir(samodels.Parent)) | MAPPED["core"] | {"nope", "Name", "N", "id_", "children_", "__table__x", "metadatax"}
+    CORE_FROMS[:] = _core_froms()
+    for nm, fo in CORE_FROMS:
+        MAPPED[nm] = set(fo.c.keys())
+    names_of_columns = {col.name for _nm, fo in CORE_FROMS for col in fo.c} | {k for _nm, fo in CORE_FROMS for k in fo.c.keys()}
+    pool = set(dir(samodels.Parent)) | MAPPED["core"] | names_of_columns | {"nope", "Name", "N", "id_", "children_", "__table__x", "metadatax"}
     NAMES[:] = sorted(pool)
 
 
@@ -590,10 +610,10 @@ def main() -> int:
                               describe={"backend": BACKENDS[bi]["name"], "kind": KINDS[ki]["name"]}, family="content:" + BACKENDS[bi]["name"]))
     nn = len(NAMES)
     nchunk = 12
-    for which, wn in ((0, "orm"), (1, "core")):
+    for which, wn in [(0, "orm"), (1, "core")] + [(2 + j, nm) for j, (nm, _fo) in enumerate(CORE_FROMS)]:
         for lo in range(0, nn, nchunk):
             hi = min(nn, lo + nchunk)
-            items.append(Item(f"unk_{wn}_{lo}", "ni: int, shape: int", f"{lo} <= ni < {hi} and 0 <= shape < {2 if quick else 4}",
+            items.append(Item(f"unk_{wn.replace(chr(45), chr(95))}_{lo}", "ni: int, shape: int", f"{lo} <= ni < {hi} and 0 <= shape < {2 if quick else 4}",
                               f"check_unknown({which}, ni, shape)", describe={"backend": "sa_" + wn, "names": NAMES[lo:hi]},
                               family="unknown-field:" + wn))
     for it in items[:3]:
